@@ -14,6 +14,7 @@ def allOps : List (String × (V → R V)) :=
   ++ tdOps
   ++ lossOps
   ++ scheduleOps
+  ++ serialOps
 
 def dispatch (op : String) (a : V) : R V :=
   match allOps.find? (·.1 == op) with
